@@ -265,26 +265,20 @@ impl TestRunner {
         // Check active elements
         let mut active_traces = vec![];
         let mut active_assertions = vec![];
-        let mut idx = 0;
-        while idx < self.test_elements.len() {
-            let should_remove = match &self.test_elements[idx] {
-                TestElement::Assertion(e) => {
-                    e.snapshot.pc.as_u16() == self.cpu.get_program_counter()
+        // An assertion or a trace applies every time its address is reached (think of a loop), so it stays in the list
+        for element in &self.test_elements {
+            match element {
+                TestElement::Assertion(a)
+                    if a.snapshot.pc.as_u16() == self.cpu.get_program_counter() =>
+                {
+                    active_assertions.push(a.clone());
                 }
-                TestElement::Trace(e) => e.snapshot.pc.as_u16() == self.cpu.get_program_counter(),
-            };
-
-            if should_remove {
-                match self.test_elements.remove(idx) {
-                    TestElement::Assertion(a) => {
-                        active_assertions.push(a);
-                    }
-                    TestElement::Trace(t) => {
-                        active_traces.push(t);
-                    }
+                TestElement::Trace(t)
+                    if t.snapshot.pc.as_u16() == self.cpu.get_program_counter() =>
+                {
+                    active_traces.push(t.clone());
                 }
-            } else {
-                idx += 1;
+                _ => {}
             }
         }
 
